@@ -12,7 +12,7 @@ import itertools
 from ..astutil import dotted, src, walk_shallow
 from ..genekernel import (chrom_parent, chunk_parent, gene_interp, mk_collection, mk_feature, mk_feature_collection, mk_gene,
                           mk_transcript)
-from ..interp import Obj, Raised, Uninterpretable
+from ..interp import ClassTok, Obj, Raised, Uninterpretable
 from ..lockernel import blocks_of, is_empty_obj, run, strands
 from .c05 import GENOME, _report, _runner, bases
 from .c08 import plain
@@ -48,6 +48,7 @@ SMALL = dict(
     genes=[dict(id="s1", txs=[dict(exons=[(4, 10), (14, 20)], strand="PLUS", cds=[(6, 10), (14, 16)])]),
            dict(id="s2", txs=[dict(exons=[(22, 30)], strand="MINUS", cds=None), dict(exons=[(24, 28)], strand="MINUS", cds=[(24, 27)])])],
     fcs=[dict(id="sf", feats=[dict(blocks=[(12, 18), (31, 36)], strand="MINUS")])],
+    vcs=[dict(id="sv", variants=[(37, 38, "T"), (38, 39, "G")])],
 )
 
 
@@ -81,7 +82,14 @@ def build(it, S, model, parent, start=None, end=None):
         feats = [mk_feature(it, x["blocks"], S[x["strand"]], feature_name=f"{f['id']}.f{i}", sequence_name="chr1",
                             parent_or_seq_chunk_parent=parent) for i, x in enumerate(f["feats"])]
         fcs.append(mk_feature_collection(it, feats, feature_collection_id=f["id"], sequence_name="chr1", parent_or_seq_chunk_parent=parent))
-    return mk_collection(it, genes, fcs, sequence_name="chr1", start=start, end=end, parent_or_seq_chunk_parent=parent), genes, fcs
+    vcs = []
+    for v in model.get("vcs", []):
+        vis = [it.apply(ClassTok("VariantInterval"), [a, b, alt, "SNV"], {"parent_or_seq_chunk_parent": parent, "variant_name": f"{v['id']}.{i}"}, None, 0)
+               for i, (a, b, alt) in enumerate(v["variants"])]
+        vcs.append(it.apply(ClassTok("VariantIntervalCollection"), [vis], {"variant_collection_id": v["id"], "sequence_name": "chr1",
+                                                                           "parent_or_seq_chunk_parent": parent}, None, 0))
+    return mk_collection(it, genes, fcs, variant_collections=vcs or None, sequence_name="chr1", start=start, end=end,
+                         parent_or_seq_chunk_parent=parent), genes, fcs + vcs
 
 
 def spans(model):
@@ -91,11 +99,14 @@ def spans(model):
                         any(t["cds"] for t in g["txs"]), "gene")
     for f in model["fcs"]:
         out[f["id"]] = (min(x["blocks"][0][0] for x in f["feats"]), max(x["blocks"][-1][1] for x in f["feats"]), False, "fc")
+    for v in model.get("vcs", []):
+        out[v["id"]] = (min(a for a, _b, _x in v["variants"]), max(b for _a, b, _x in v["variants"]), False, "vc")
     return out
 
 
 def member_ids(ac):
     ids = [g.fields["gene_id"] for g in ac.fields["genes"]] + [f.fields["feature_collection_id"] for f in ac.fields["feature_collections"]]
+    ids += [v.fields["variant_collection_id"] for v in (ac.fields.get("variant_collections") or [])]
     return sorted(ids)
 
 
@@ -120,9 +131,11 @@ def _pos_case(repo, it, S, spec):
     sp = spans(model)
     cstart, cend = ac.fields["start"], ac.fields["end"]
     src_dicts = {}
+    TD = {"GeneInterval": "gene.gene:GeneInterval.to_dict", "FeatureIntervalCollection": "gene.feature:FeatureIntervalCollection.to_dict",
+          "VariantIntervalCollection": "gene.variants:VariantIntervalCollection.to_dict"}
+    oid_of = lambda o: o.fields.get("gene_id") or o.fields.get("feature_collection_id") or o.fields.get("variant_collection_id")  # noqa: E731
     for o in genes + fcs:
-        oid = o.fields.get("gene_id") or o.fields.get("feature_collection_id")
-        src_dicts[oid] = plain(run(it, repo.fn(("gene.gene:GeneInterval" if o.cls_name == "GeneInterval" else "gene.feature:FeatureIntervalCollection") + ".to_dict"), [], {}, o)[1])
+        src_dicts[oid_of(o)] = plain(run(it, repo.fn(TD[o.cls_name]), [], {}, o)[1])
     for coding_only in (False, True):
         for within in (True, False):
             for expand in ((False, True) if not within else (False,)):
@@ -157,10 +170,9 @@ def _pos_case(repo, it, S, spec):
                     out.append(("bounds", f"{desc} -> bounds ({v.fields.get('start')},{v.fields.get('end')}); documented ({wa},{wb})", f.qual))
                 if v.fields.get("completely_within") is not within:
                     out.append(("completely_within recorded", f"{desc}: result.completely_within = {v.fields.get('completely_within')}", f.qual))
-                for o in v.fields["genes"] + v.fields["feature_collections"]:
-                    oid = o.fields.get("gene_id") or o.fields.get("feature_collection_id")
-                    q = ("gene.gene:GeneInterval" if o.cls_name == "GeneInterval" else "gene.feature:FeatureIntervalCollection") + ".to_dict"
-                    d = plain(run(it, repo.fn(q), [], {}, o)[1])
+                for o in v.fields["genes"] + v.fields["feature_collections"] + list(v.fields.get("variant_collections") or []):
+                    oid = oid_of(o)
+                    d = plain(run(it, repo.fn(TD[o.cls_name]), [], {}, o)[1])
                     if d != src_dicts[oid]:
                         out.append(("members retained", f"{desc}: member {oid} changed its dictionary form (coordinates / identifiers) in the result", f.qual))
                 if which != "big":
@@ -293,6 +305,9 @@ def rk_ids(ctx):
 def r7_union_interface(ctx):
     """attributes read on `child` / `grandchild` in the query code must exist on every member class"""
     r, repo = ctx.r, ctx.repo
+    # strengthening: RK interprets the queries on collections holding all three member kinds; this rule extends "no missing
+    # attribute" to the query paths RK's ranges do not reach.  It recognises the loop variables by name, so it never alarms.
+    r.soften("C09.R7")
     child_classes = ["GeneInterval", "FeatureIntervalCollection", "VariantIntervalCollection"]
     grand_classes = ["TranscriptInterval", "FeatureInterval", "VariantInterval"]
 
